@@ -7,7 +7,9 @@ use stats_ci::Interval;
 use std::fmt::{Debug, Display};
 use std::sync::Arc;
 
-trait Fl: Copy + PartialOrd + Debug + Display + AbsDiffEq<Epsilon = Self> + RelativeEq + UlpsEq + Send + Sync + 'static {
+// (num_traits::Float: the monitor only instantiates f32 / f64, and must keep compiling against a crate whose
+// approx impls are restricted to float element types)
+trait Fl: num_traits::Float + Debug + Display + AbsDiffEq<Epsilon = Self> + RelativeEq + UlpsEq + Send + Sync + 'static {
     const TY: &'static str;
     fn of(x: f64) -> Self;
     fn f(self) -> f64;
@@ -116,15 +118,23 @@ fn judge<T: Fl>(a: Interval<T>, b: Interval<T>, eps: T, rel: T, ulps: u32, case:
             l.violation(format!("{}|{}x{}|not-the-complement|got={}", m, ka, kb, ne), format!("{} on ({}, {}) is not the negation of the kind-aware bound-wise relation", m, ka, kb), case(), det(m, ne, !eq));
         }
     }
-    // implied by exact equality; reflexive
-    if a == b {
+    // implied by exact equality; reflexive. (Judged for finite bounds: the scalar relations of the approx
+    // crate are themselves not reflexive at infinities (|inf - inf| is NaN), and the interval relation is
+    // the bound-wise one.)
+    let finite = |i: &Interval<T>| match i {
+        Interval::TwoSided(x, y) => x.is_finite() && y.is_finite(),
+        Interval::UpperOneSided(x) | Interval::LowerOneSided(x) => x.is_finite(),
+    };
+    if !(finite(&a) && finite(&b)) {
+        l.count("pair with an infinite bound judged bound-wise");
+    } else if a == b {
         l.eval();
         if !(a.abs_diff_eq(&b, eps) && a.relative_eq(&b, eps, rel) && a.ulps_eq(&b, eps, ulps)) {
             l.violation(format!("implied-by-eq|{}", ka), "a == b but an approximate comparison fails".to_string(), case(), det("==", false, true));
         }
     }
     l.eval();
-    if !(a.abs_diff_eq(&a, eps) && a.relative_eq(&a, eps, rel) && a.ulps_eq(&a, eps, ulps)) {
+    if finite(&a) && !(a.abs_diff_eq(&a, eps) && a.relative_eq(&a, eps, rel) && a.ulps_eq(&a, eps, ulps)) {
         l.violation(format!("reflexive|{}", ka), "approximate comparison is not reflexive".to_string(), case(), det("reflexive", false, true));
     }
     l.count_s(format!("{}:{}x{}", T::TY, ka, kb));
@@ -140,8 +150,22 @@ fn case_at<T: Fl>(seed: u64, i: u64, l: &mut Local) {
     let ka = r.below(3) as u8;
     let kb = if r.chance(0.7) { ka } else { r.below(3) as u8 };
     let base: [f64; 7] = [1.0, -2.5, 0.0, 1e-8, 1234.5678, -1e6, 3.0];
-    let a1 = T::of(*r.pick(&base));
-    let a2 = T::of(a1.f() + *r.pick(&[0.0, 1.0, 0.5, 1e3]));
+    let mut a1 = T::of(*r.pick(&base));
+    let mut a2 = T::of(a1.f() + *r.pick(&[0.0, 1.0, 0.5, 1e3]));
+    // one case in eight has an infinite bound: a two-sided interval that reaches to infinity is still not
+    // a one-sided interval (different kinds are never related), and one-sided intervals at +-inf exist
+    match i % 16 {
+        3 => {
+            a2 = T::of(f64::INFINITY);
+            l.count("infinite bound");
+        }
+        11 => {
+            a2 = a1;
+            a1 = T::of(f64::NEG_INFINITY);
+            l.count("infinite bound");
+        }
+        _ => {}
+    }
     // differences per bound, independently
     let delta = |r: &mut Rng, x: T| -> (T, f64, i32) {
         match r.below(7) {
@@ -166,12 +190,13 @@ fn case_at<T: Fl>(seed: u64, i: u64, l: &mut Local) {
     let a = mk(ka, a1, a2);
     let b = mk(kb, b1, b2);
     // tolerances swept around the actual differences
-    let d1 = (b1.f() - a1.f()).abs();
-    let d2 = (b2.f() - a2.f()).abs();
+    let fin = |v: f64| if v.is_finite() { v } else { 0.0 };
+    let d1 = fin((b1.f() - a1.f()).abs());
+    let d2 = fin((b2.f() - a2.f()).abs());
     let d = *r.pick(&[d1, d2, d1.max(d2), d1.min(d2)]);
     let fac = *r.pick(&[0.0, 0.5, 1.0 - 1e-9, 1.0, 1.0 + 1e-9, 2.0]);
     let eps = T::of(d * fac);
-    let scale = a1.f().abs().max(b1.f().abs()).max(a2.f().abs()).max(b2.f().abs()).max(1e-300);
+    let scale = fin(a1.f().abs()).max(fin(b1.f().abs())).max(fin(a2.f().abs())).max(fin(b2.f().abs())).max(1e-300);
     let rel = T::of(d / scale * *r.pick(&[0.0, 0.5, 1.0 - 1e-9, 1.0, 1.0 + 1e-9, 2.0]));
     let um = u1.max(u2).max(0);
     let ulps = (um + *r.pick(&[-1, 0, 1, 0])).max(0) as u32;
@@ -260,6 +285,7 @@ pub fn run(run: &Arc<Run>) {
         }
     }
     req.push("negated comparison judged".to_string());
+    req.push("pair with an infinite bound judged bound-wise".to_string());
     let r: Vec<&str> = req.iter().map(|s| s.as_str()).collect();
     run.require(&r);
 }
